@@ -402,6 +402,98 @@ def check_case(bitfield_mod, case, success_clause="auto_placement_should_succeed
 
 # --------------------------------------------------------------------------------------------------
 # enumeration
+
+# --------------------------------------------------------------------------------------------------
+# known first-fit fragmentation cases (finding D15): the exact inputs that fail on the pinned tree,
+# generated once by tools/gen_c08_known.py and committed; never written at run time
+# --------------------------------------------------------------------------------------------------
+def load_known_cases():
+    import json
+    import os
+    path = os.path.join(os.path.dirname(os.path.dirname(os.path.abspath(__file__))), "known_findings_data", "c08_first_fit.json")
+    try:
+        with open(path) as f:
+            d = json.load(f)
+    except (IOError, OSError):
+        d = {}
+    return {k: set(v) for k, v in d.items() if isinstance(v, list)}
+
+
+def e5_key(L, parents, widths, reuse):
+    return "L=%d parents=%r widths=%r reuse=%d" % (L, tuple(parents), tuple(widths), int(bool(reuse)))
+
+
+# layer F: two independent top-level selector fields a (1 bit) and b (2 bits); every other field lives in a scope that fixes
+# any subset of {a, b} (bf(a=0, b=1), bf(b=2), bf() ...): scopes that are conjunctions over INDEPENDENT fields
+F_SCOPES = [(a, b) for a in (None, 0, 1) for b in (None, 0, 1, 2)]
+
+
+def f_compatible(scope, va, vb):
+    return scope[0] in (None, va) and scope[1] in (None, vb)
+
+
+def f_need(scopes, widths):
+    return 3 + max(sum(w for s_, w in zip(scopes, widths) if f_compatible(s_, va, vb)) for va in (0, 1) for vb in range(4))
+
+
+def f_key(L, scopes, widths):
+    return "L=%d scopes=%r widths=%r" % (L, tuple(scopes), tuple(widths))
+
+
+def f_calls(L, scopes, widths):
+    calls = ["bf = BitField(%d)" % L, "bf.add_field('a', length=1)", "bf.add_field('b', length=2)"]
+    for i, (s_, w) in enumerate(zip(scopes, widths)):
+        kw = ", ".join("%s=%d" % (n_, v) for n_, v in zip("ab", s_) if v is not None)
+        calls.append("bf%s.add_field('f%d', length=%d)" % ("(%s)" % kw if kw else "", i, w))
+    return calls + ["bf.assign_fields()"]
+
+
+def check_f_case(bitfield_mod, L, scopes, widths):
+    """-> (status, [(clause, why)]) for one layer-F case driven through the real BitField"""
+    bf = bitfield_mod.BitField(L)
+    bad = []
+    try:
+        bf.add_field("a", length=1)
+        bf.add_field("b", length=2)
+        for i, (s_, w) in enumerate(zip(scopes, widths)):
+            kw = dict((n_, v) for n_, v in zip("ab", s_) if v is not None)
+            (bf(**kw) if kw else bf).add_field("f%d" % i, length=w)
+        bf.assign_fields()
+    except ValueError as e:
+        return "rejected_assign", [("__success__", "assign_fields() raised ValueError (%s) although the fields that can be present together never need more than %d of the %d bits" % (e, f_need(scopes, widths), L))]
+    except Exception as e:      # noqa
+        return "error", [("unexpected_exception", "%s: %s" % (type(e).__name__, e))]
+    for va in (0, 1):
+        for vb in range(4):
+            present = [("a", 1), ("b", 2)] + [("f%d" % i, w) for i, (s_, w) in enumerate(zip(scopes, widths)) if f_compatible(s_, va, vb)]
+            vals = {"a": va, "b": vb}
+            for nme, w in present[2:]:
+                vals[nme] = ((1 << w) - 1) ^ (va & 1)
+            try:
+                scoped = bf(a=va, b=vb)
+                full = scoped(**dict((k, v) for k, v in vals.items() if k not in "ab"))
+                locs = dict((nme, scoped.get_location_and_length(nme)) for nme, _ in present)
+                key, mask = full.get_value(), full.get_mask()
+            except Exception as e:      # noqa
+                bad.append(("unexpected_exception", "a=%d b=%d: %s: %s" % (va, vb, type(e).__name__, e)))
+                continue
+            used = 0
+            for nme, w in present:
+                at, ln = locs[nme]
+                bits = ((1 << ln) - 1) << at
+                if at < 0 or at + ln > L:
+                    bad.append(("field_outside_bitfield", "a=%d b=%d: %s at %d length %d in a %d-bit field" % (va, vb, nme, at, ln, L)))
+                if ln < w:
+                    bad.append(("field_too_narrow", "a=%d b=%d: %s has %d bits, defined with %d" % (va, vb, nme, ln, w)))
+                if used & bits:
+                    bad.append(("fields_overlap", "a=%d b=%d: %s at %d length %d overlaps another field present at the same time" % (va, vb, nme, at, ln)))
+                used |= bits
+                if (key >> at) & ((1 << ln) - 1) != vals[nme]:
+                    bad.append(("value_read_back", "a=%d b=%d: %s reads back %d from key %#x, given %d" % (va, vb, nme, (key >> at) & ((1 << ln) - 1), key, vals[nme])))
+            if mask != used:
+                bad.append(("mask_is_union_of_present_fields", "a=%d b=%d: mask %#x, present fields cover %#x" % (va, vb, mask, used)))
+    return "ok", bad
+
 # --------------------------------------------------------------------------------------------------
 
 def run(tier="quick", seed=0):
@@ -415,6 +507,7 @@ def run(tier="quick", seed=0):
     samples = []
     stats = {"ok": 0, "rejected_add": 0, "rejected_assign": 0, "error": 0}
     layers = {}
+    known_cases = load_known_cases()
 
     def go(case, layer, success_clause="auto_placement_should_succeed", max_assignments=MAX_ASSIGNMENTS):
         nonlocal ev
@@ -539,8 +632,35 @@ def run(tier="quick", seed=0):
             for i, w in zip(inner, ws):
                 widths[i] = w
             need = fit_length(parents, widths)
-            go(make_case(need, parents, [(None, None)] * 5, [(1 << w) - 1 for w in widths], reuse=bool(ev & 1)),
-               "E5", success_clause="auto_placement_should_succeed_5_fields", max_assignments=8)
+            reuse = bool(ev & 1)
+            # a failure of the success clause is finding D15 only for the exact inputs listed for it
+            listed = e5_key(need, parents, widths, reuse) in known_cases.get("E5", ())
+            go(make_case(need, parents, [(None, None)] * 5, [(1 << w) - 1 for w in widths], reuse=reuse),
+               "E5", success_clause="auto_placement_should_succeed_5_fields" if listed else "auto_placement_should_succeed", max_assignments=8)
+
+    # (F) scopes over two INDEPENDENT selector fields (see F_SCOPES): 1-3 automatic-position fields of 1..3 bits (and 5 bits for <= 2
+    #     fields), every combination of scopes, in the exactly-filled and the one-bit-larger bit field
+    for k in (1, 2, 3):
+        for scopes_ in itertools.product(F_SCOPES, repeat=k):
+            for widths in itertools.product((1, 2, 3) if k == 3 else (1, 2, 3, 5), repeat=k):
+                if k == 3 and not thorough and rng.random() >= 1 / 8.0:
+                    continue
+                need = f_need(scopes_, widths)
+                for L in (need, need + 1):
+                    ev += 1
+                    layers["F"] = layers.get("F", 0) + 1
+                    status, bad = check_f_case(bitfield_mod, L, scopes_, widths)
+                    stats[status] += 1
+                    distinct.add(("F", L, scopes_, widths))
+                    for clause, why in bad[:2]:
+                        if clause == "__success__":
+                            clause = ("auto_placement_should_succeed_independent_selectors" if f_key(L, scopes_, widths) in known_cases.get("F", ())
+                                      else "auto_placement_should_succeed")
+                        lst = found.setdefault(clause, [])
+                        lst.append(((k + 2, L, sum(widths), 0), ev, {"id": "F_%d" % ev, "clause": clause, "why": why,
+                                                                   "inputs": {"calls": f_calls(L, scopes_, widths)}}))
+                        lst.sort(key=lambda t: t[:2])
+                        del lst[MAX_PER_CLAUSE:]
 
     viol = []
     order = sorted(found, key=lambda c: found[c][0][:2])
@@ -561,7 +681,7 @@ def run(tier="quick", seed=0):
                      "refused, success clause (no explicit start, single layout, co-present widths sum <= L => assign_fields succeeds). Layers %r: A exhaustive numerics for 1-2 fields "
                      "(start 0..L, lengths/widths 1..3, 1..L+1 for one field); B every structure x order x explicit/automatic mode for 3 (and %s 4) fields with drawn numerics, L in 4..8 "
                      "(7%% 32/64); C every tag placement over every structure; D every all-automatic structure with widths 1..2 in the exactly-filled and one-bit-larger bit field, plus "
-                     "32/64-bit fields filled to the last bit; E all-automatic 5-field structures (inner widths 1..2, exactly filled; own clause name). non-trivial = laid out with >= 2 complete assignments compared, or rejected; "
+                     "32/64-bit fields filled to the last bit; E all-automatic 5-field structures (inner widths 1..2, exactly filled; a failure of the success clause is finding D15 only for the inputs listed in known_findings_data/c08_first_fit.json); F scopes that fix any subset of two independent selector fields a (1 bit), b (2 bits): 1-3 further automatic fields (quick: an eighth of the 3-field cases), exactly filled and one bit larger. non-trivial = laid out with >= 2 complete assignments compared, or rejected; "
                      "outcomes %r" % (MAX_ASSIGNMENTS, layers, "every" if thorough else "a seeded 20% of", stats)),
             "bound": "<= 4 fields (5 in the all-automatic layer E), depth <= 3, scope values 0/1, bit-field lengths 4..8 and 32/48/64 (layers D/E: the exactly filled length, 1..10), explicit lengths / automatic widths 1..3 (up to L for single fields and long bit fields)",
             "exhaustive": False, "label": "bounded", "samples": samples, "violations": viol, "seconds": round(secs, 2)}
